@@ -143,7 +143,10 @@ json.dump(res, sys.stdout)
 # ------------------------------------------------------------------------------------------------
 # (a) control-flow skeleton
 ALLOWED_CALLS = {"dx", "dy", "dz", "dx1", "dx2", "dx3", "Tuple", "Matrix", "ImmutableDenseMatrix", "list", "range",
-                 "len", "isinstance", "simplify", "ValueError", "NotImplementedError"}
+                 "len", "isinstance", "simplify", "ValueError", "NotImplementedError",
+                 # module-level selector that looks only at the TYPE of its argument (u[0] for a container, u itself
+                 # for a scalar expression): constant behaviour within one argument kind, like the type guards
+                 "_first_component"}
 ALLOWED_METHODS = {"append", "atoms", "subs", "transpose", "trace"}
 TYPE_NAMES = {"Matrix", "ImmutableDenseMatrix", "Tuple", "VectorFunction", "Add", "Mul"}
 
